@@ -97,9 +97,19 @@ Proof.
   - apply secrets_not_ok.
 Qed.
 
-Lemma sstep_WInv wd o : WInv wd -> WInv (sstep wd o).
+(* the error value of an environment failure is public whatever the site, the context and the
+   environment's own error text are *)
+Lemma pub_list_ok l : okb (pub_list l) = true.
+Proof. induction l as [|b r IH]; cbn [pub_list okb]; [reflexivity|]. rewrite IH. reflexivity. Qed.
+
+Lemma env_error_ok site ctx env : okb (env_error_term site ctx env) = true.
+Proof. unfold env_error_term. cbn [okb]. rewrite pub_list_ok. reflexivity. Qed.
+
+Lemma sstep_WInv o : forall wd, WInv wd -> WInv (sstep wd o).
 Proof.
-  intros I. destruct o as [w coin el rl|n a|n a msg|code|n|n|w coin el addrs| | |n]; cbn [sstep].
+  unfold sstep.
+  induction o as [w coin el rl|n a|n a msg|code|n|n|w coin el addrs| | |n|n|n|o' IH f site ctx env];
+    intros wd I; cbn [sstep_gen].
   - apply WInv_add, I.
   - destruct (nth_error (w_insts wd) n) as [k0|]; [|exact I]. destruct I as [Hk Hs].
     split; cbn [w_known w_secret]; constructor; auto; try apply pub_row_ok; try apply addr_key_not_ok.
@@ -117,15 +127,25 @@ Proof.
     pose proof (rows_ok k) as R. rewrite Forall_forall in R. apply R, Hr.
   - exact I.
   - exact I.
+  - exact I.
+  - exact I.
+  - (* the operation failed with an environment error *)
+    destruct (IH wd I) as [Hk Hs]. split; cbn [w_known w_secret fail_error]; [|exact Hs].
+    constructor; [apply env_error_ok|exact Hk].
 Qed.
 
 Lemma srun_WInv ops : forall wd, WInv wd -> WInv (srun wd ops).
-Proof. induction ops as [|o r IH]; intros wd I; [exact I|]. cbn. apply IH, sstep_WInv, I. Qed.
+Proof.
+  unfold srun. induction ops as [|o r IH]; intros wd I; [exact I|]. cbn [srun_gen].
+  apply IH. apply (sstep_WInv o wd I).
+Qed.
 
 (* C05: after any history — creations, new addresses, signatures, exports, imports of keystores and
-   mnemonics, public-passphrase changes, restarts, removals, and any number of refused attempts —
-   no secret of any wallet that ever existed can be derived from everything that was ever stored
-   or returned, together with every public passphrase *)
+   mnemonics, public-passphrase changes, restarts, removals, reveals, selections, any number of
+   refused attempts, and ANY of these failing at any step with an error of the chain look-up, of
+   another chain read or of the wallet database (after any part of its writes) —
+   no secret of any wallet that ever existed or was attempted can be derived from everything that
+   was ever stored or returned, together with every public passphrase *)
 Theorem no_plain_secret ops s :
   In s (w_secret (srun init_world ops)) -> ~ derivable (knows (srun init_world ops)) s.
 Proof.
@@ -156,9 +176,21 @@ Proof.
   destruct Hk as [<-|Hk]; [left; exact Hs|right; eapply C; eauto].
 Qed.
 
-Lemma sstep_covers wd o : covers wd -> covers (sstep wd o).
+(* no step forgets a secret (whichever way the error values are built) *)
+Lemma sstep_secret_incl pfix o : forall wd, incl (w_secret wd) (w_secret (sstep_gen pfix wd o)).
 Proof.
-  intros C. destruct o as [w coin el rl|n a|n a msg|code|n|n|w coin el addrs| | |n]; cbn [sstep];
+  induction o as [w coin el rl|n a|n a msg|code|n|n|w coin el addrs| | |n|n|n|o' IH f site ctx env];
+    intros wd; cbn [sstep_gen];
+    try (destruct (nth_error (w_insts wd) n) as [k0|]);
+    cbn [add_inst w_secret]; try apply incl_refl; try (apply incl_appr, incl_refl); try (apply incl_tl, incl_refl).
+  apply IH.
+Qed.
+
+Lemma sstep_covers o : forall wd, covers wd -> covers (sstep wd o).
+Proof.
+  unfold sstep.
+  induction o as [w coin el rl|n a|n a msg|code|n|n|w coin el addrs| | |n|n|n|o' IH f site ctx env];
+    intros wd C; cbn [sstep_gen];
     try (apply covers_add; exact C); try exact C.
   - destruct (nth_error (w_insts wd) n) as [k0|] eqn:N; [|exact C].
     intros k s Hk Hs. cbn [w_insts w_secret] in *.
@@ -174,10 +206,15 @@ Proof.
   - destruct (nth_error (w_insts wd) n) as [k0|]; [apply covers_add|]; exact C.
   - intros k s Hk Hs. cbn [w_insts w_secret] in *. apply in_map_iff in Hk.
     destruct Hk as (k0 & <- & Hk0). rewrite secrets_rekey in Hs. eapply C; eauto.
+  - (* a failed operation: the instances are the old ones, their secrets are still listed *)
+    intros k s Hk Hs. cbn [w_insts w_secret] in *. apply (sstep_secret_incl true o' wd). eapply C; eauto.
 Qed.
 
 Lemma srun_covers ops : forall wd, covers wd -> covers (srun wd ops).
-Proof. induction ops as [|o r IH]; intros wd C; [exact C|]. cbn. apply IH, sstep_covers, C. Qed.
+Proof.
+  unfold srun. induction ops as [|o r IH]; intros wd C; [exact C|]. cbn [srun_gen].
+  apply IH. apply (sstep_covers o wd C).
+Qed.
 
 Theorem no_plain_secret_live ops k s :
   In k (w_insts (srun init_world ops)) -> In s (secrets k) ->
@@ -186,6 +223,71 @@ Proof.
   intros Hk Hs. apply no_plain_secret.
   assert (C : covers (srun init_world ops)) by (apply srun_covers; intros k' s' []).
   exact (C k s Hk Hs).
+Qed.
+
+(* ------------------------------------------------------------------ environment failures *)
+
+(* a failed operation is rolled back: the live instances are the ones before it *)
+Lemma env_fail_rolls_back wd o f site ctx env :
+  w_insts (sstep wd (SEnvFail o f site ctx env)) = w_insts wd.
+Proof. reflexivity. Qed.
+
+(* ... and the secrets the attempt brought into being are protected like all others: e.g. the
+   entropy (= mnemonic) and the passphrase of a wallet whose mnemonic import or creation FAILED are
+   in the list the secrecy theorem quantifies over, although no instance holds them *)
+Lemma env_fail_keeps_attempted_secrets wd o f site ctx env :
+  w_secret (sstep wd (SEnvFail o f site ctx env)) = w_secret (sstep wd o).
+Proof. reflexivity. Qed.
+
+Lemma failed_import_secrets_listed wd w coin el addrs f site ctx env :
+  let wd' := sstep wd (SEnvFail (SImportMnemonic w coin el addrs) f site ctx env) in
+  In (t_entropy w) (w_secret wd') /\ In (t_privpass w) (w_secret wd') /\ In (t_seed w) (w_secret wd') /\
+  w_insts wd' = w_insts wd.
+Proof. cbn. unfold secrets. cbn. tauto. Qed.
+
+Lemma failed_create_secrets_listed wd w coin el rl f site ctx env :
+  let wd' := sstep wd (SEnvFail (SCreate w coin el rl) f site ctx env) in
+  In (t_entropy w) (w_secret wd') /\ In (t_privpass w) (w_secret wd') /\ w_insts wd' = w_insts wd.
+Proof. cbn. unfold secrets. cbn. tauto. Qed.
+
+(* the error value of every environment failure is derivable by anybody: it carries nothing *)
+Lemma env_fail_error_known wd o f site ctx env :
+  knows (sstep wd (SEnvFail o f site ctx env)) (env_error_term site ctx env) /\
+  okb (env_error_term site ctx env) = true.
+Proof. split; [left; reflexivity|apply env_error_ok]. Qed.
+
+(* the seeded regression ([pfix] = false): the error of a failed operation carries the
+   operation's parameter record. A mnemonic import whose first chain look-up fails then hands the
+   entropy (the mnemonic sentence) and the private passphrase of the wallet to whoever reads the
+   error — secrets of a wallet that was never even stored *)
+Definition leak_history : list sop := [SEnvFail (SImportMnemonic 0 297 16 []) FChainLookup 1 [] [99]].
+
+Theorem error_carrying_parameters_refuted :
+  let wd := srun_gen false init_world leak_history in
+  w_insts wd = [] /\
+  In (t_entropy 0) (w_secret wd) /\ derivable (knows wd) (t_entropy 0) /\
+  In (t_privpass 0) (w_secret wd) /\ derivable (knows wd) (t_privpass 0) /\
+  (* with the code as it is the same history leaks nothing *)
+  forallb okb (w_known (srun init_world leak_history)) = true.
+Proof.
+  cbn zeta.
+  assert (K : knows (srun_gen false init_world leak_history)
+                    (Cat (env_error_term 1 [] [99]) (params_term init_world (SImportMnemonic 0 297 16 [])))).
+  { left. reflexivity. }
+  cbn [params_term] in K.
+  repeat split.
+  - vm_compute. tauto.
+  - apply DFst with (b := Cat (Pub []) (Cat (t_privpass 0) (Pub []))).
+    apply DSnd with (a := Pub [0]).
+    apply DSnd with (a := env_error_term 1 [] [99]).
+    apply DKnown. exact K.
+  - vm_compute. tauto.
+  - apply DFst with (b := Pub []).
+    apply DSnd with (a := Pub []).
+    apply DSnd with (a := t_entropy 0).
+    apply DSnd with (a := Pub [0]).
+    apply DSnd with (a := env_error_term 1 [] [99]).
+    apply DKnown. exact K.
 Qed.
 
 (* the attacker holding the public passphrase does reach the public material (so the model is
